@@ -252,3 +252,8 @@ RULES = [r1_r2_reduce, r4_batch_transform, r3_mean_std, r5_broadcast, r6_named_r
 from .C15 import r1_markers, r4_take  # noqa: E402  (batching relies on the markers; expand relies on take)
 
 RULES += [r1_markers, r4_take]
+
+from .common import lazy  # noqa: E402
+RULES += [lazy("C15", "r2_siblings", "each named reduction reaches the back-end function of that name with the operands unchanged"),
+          lazy("C15", "r3_multi_arg", "multi-argument reductions stack on a new leading axis and reduce along it"),
+          lazy("C10", "r8_placeholders", "stack / concatenate / flatten rely on the i-th input being passed at the i-th position")]
